@@ -16,6 +16,7 @@ func init() {
 		Explain: otherNote + "C15: decided = every documented exclusion (guard table, 90+ rows) leads to a failure return on every path under its abstract scenario, with no reachable constant index into a split ID and no nil dereference before the check; no strconv error of caller text is dropped or overwritten; Point fields are written only by guarded setters with the documented rounding; failure returns of the overlap checks and tile conversions carry false / nil.",
 		Canary: []CanaryExpect{
 			{Rule: "ERRUSED", Bad: "canaryBadDroppedAtoi", Good: "canaryGoodCheckedAtoi"},
+			{Rule: "GUARD", Bad: "canaryBadZoomGuard", Good: "canaryGoodZoomGuard"},
 		}})
 	register(&propSpec{ID: "C16", Level: "other", Run: runC16,
 		Explain: otherNote + "C16: decided = no exported function writes memory reachable from its arguments; no result depends on the position of an element in a map-ordered slice; bodies of map-range loops are commutative; documented de-duplication happens on every success path; no other nondeterminism source is reachable. Invariance of the result set under permutation/duplication of the input list in general is NOT decided.",
